@@ -11,7 +11,7 @@ CHECKS = {
     "C02": ("contract on dot_bracket/convert_to_dot_bracket + exact branch-and-bound optimiser as reference model", "4.C02",
             "The objective value of the notation the real MILP path returns is compared (integers) with an independent exact optimum per conflict component, for every pairing up to N and random multi-stem knots where FCFS is sub-optimal; the same pairing reached through other constructors (parsed from non-optimal notations / BPSEQ text), a structure with more than a thousand stems, and 30 mutually crossing stems through the MILP path."),
     "C03": ("contract on annotator.find_pairs + dense O(n^2) H-bond/edge/torsion reference model with margins", "4.C03",
-            "Every reported pair and every candidate edge combination of every observed execution (corpus, rigid/jitter/thinning perturbations, threshold-sweeping two-residue placements) is judged by an independent dense evaluator; quantities within 1e-6 of a threshold are undecided; all NMR models in one structure with an explicit model; texts with nearly superposed copies of residues, and texts whose PDB fields are filled to their edges, read by the real reader and compared with the annotation of the written atoms; threshold-grazing placements (one decision quantity bisected to +-2e-3..2e-5 of its limit, also 9000 A from the origin); more than 65 535 residues in one model; the chain table-level reader -> fit_to_pdb -> write_pdb -> residue-level reader before annotation; PDB texts whose serials pass 99999; mmCIF with a canonical sequence and uninformative component names; chain names differing by letter case."),
+            "Every reported pair and every candidate edge combination of every observed execution (corpus, rigid/jitter/thinning perturbations, threshold-sweeping two-residue placements) is judged by an independent dense evaluator; quantities within 1e-6 of a threshold are undecided; all NMR models in one structure with an explicit model; texts with nearly superposed copies of residues, and texts whose PDB fields are filled to their edges, read by the real reader and compared with the annotation of the written atoms; threshold-grazing placements (one decision quantity bisected to +-2e-3..2e-5 of its limit, also 9000 A from the origin); more than 65 535 residues in one model; the chain table-level reader -> fit_to_pdb -> write_pdb -> residue-level reader before annotation; PDB texts whose serials pass 99999; mmCIF with a canonical sequence and uninformative component names; chain names differing by letter case; bases reduced to their three plane atoms; the pairs of the public entry points for a requested model of a multi-model structure."),
     "C04": ("contract on annotator.find_stackings + dense stacking reference model with margins", "4.C04",
             "Soundness and completeness of the stacking list against an O(n^2) evaluation of centroid distance, inter-normal angle and offset angle; placements sweep each quantity across its threshold; the list must be ordered as the residues are; CLI CSV written onto a reused path; files with filled fields against the written atoms; threshold-grazing placements on centroid distance, normal and offset angles; PDB texts whose ATOM serials pass 99999 half-way; single-chain mmCIF with the canonical sequence whose first/last residues carry uninformative component names."),
     "C05": ("metamorphic twins through the real annotator, outputs compared modulo renaming, margins measured", "4.C05",
@@ -25,7 +25,7 @@ CHECKS = {
     "C09": ("round-trip twins through parser_v2 + 80-column grammar and record automaton on every write_pdb result", "4.C09",
             "Four write/read paths per table compared field by field with the abstract table; every written PDB document is parsed by an independent column grammar and a record-sequence automaton; a third of the round trips use the other documented input/output object kinds (StringIO, text/binary handles, paths); serial numbers restarting per model; more than 65 536 atom lines; blank chain ids on both paths that start from PDB."),
     "C10": ("contract on fit_to_pdb + independent feasibility test + bijection check + write/read back", "4.C10",
-            "Tables within and beyond PDB limits (incl. >62 chains, >9999 residues per chain, >99999 atoms in thorough, residues with non-contiguous records, derived/subset frames) are fitted; result judged for limits, field preservation, one-to-one renaming, refusal iff infeasible, and survival of write_pdb/parse_pdb_atoms; chain names that are runs of consecutive one-character ids (AB, Za, 12)."),
+            "Tables within and beyond PDB limits (incl. >62 chains, >9999 residues per chain, >99999 atoms in thorough, residues with non-contiguous records, derived/subset frames) are fitted; result judged for limits, field preservation, one-to-one renaming, refusal iff infeasible, and survival of write_pdb/parse_pdb_atoms; chain names that are runs of consecutive one-character ids (AB, Za, 12); atoms without any chain id; the splitter tool writing an ensemble whose later models pass the serial limit."),
     "C11": ("contracts on find_pairs/find_stackings + frozen Saenger/Zirbel tables + re-read CSV/JSON", "4.C11",
             "Well-formedness clauses (duplicates, self, membership, orientation, sortedness, Saenger, BPh/BR donor contact and class, one class per pair) judged on every observed annotation including all NMR models, crowded structures and nucleotides listed in two parts; CSV/JSON written onto paths that already hold another result; chain names whose order depends on letter case; annotations imported from FR3D listings (short and nine-field unit ids, insertion codes) judged for participants, self-joins and repeats."),
     "C12": ("recorded call histories on object pools checked step by step against a fresh-object model", "4.C12",
@@ -43,7 +43,7 @@ CHECKS = {
     "C18": ("contracts on both torsion functions judging every call against an independent dihedral + constructive builder", "4.C18",
             "Every call of either torsion implementation made by any workload (builder quadruples under rigid motions, reversal, mirroring; corpus chi/backbone torsions via Residue3D.chi, the annotator and Structure.torsion_angles) is compared with an IUPAC reference validated against a constructive builder in the same run; chi read after a full 2D analysis of the same object must equal the dihedral of the atoms' own coordinates; chi of re-emitted tables with shuffled item order, stripped bases, integer points, PDB fields filled to their edges, residues of unknown base type; bond angles to within 0.006 degrees of linear; every backbone torsion the table reports compared with the torsion over atoms bonded in sequence; components named after another base."),
     "C19": ("contracts on the FR3D/DSSR importers + regular-expression reference of the label language", "4.C19",
-            "Label space exhaustive to length 4 (quick) / 6 over a reduced alphabet (thorough); generated listings and DSSR documents judged against a unit-id grammar and resolvable-name oracle."),
+            "Label space exhaustive to length 4 (quick) / 6 over a reduced alphabet (thorough); generated listings and DSSR documents judged against a unit-id grammar and resolvable-name oracle; multi-model DSSR documents incl. model numbers that are not 1..n."),
     "C20": ("contracts on copy_from_to/replace_value + in-process CLI twin, frames compared by an independent CIF tokenizer", "4.C20",
             "Input and output documents are parsed by an independent tokenizer and compared cell by cell; the CLI is run in-process on the same content and compared byte for byte with the library result; multi-block documents (blocks after the first must survive unchanged); incomplete CLI modes must write nothing; data names indented or on the loop_ line."),
 }
